@@ -38,6 +38,18 @@ def gen(rng, tier):
             fb = fa
             msgs = [iu.dict_text(iu.rand_message_fit(rng, pk, a, nbits=rng.choice([1, 3, 8, 20]))) for _ in range(rng.choice([1, 2, 5]))]
         cases.append({'kind': 'ipm', 'via': via, 'a': a, 'b': b, 'fa': fa, 'fb': fb, 'msgs': msgs})
+    # records that end on, just before and just after a 1012-byte payload boundary of the OUTPUT (a first record of
+    # 2021 or 2022 bytes leaves one or two bytes for the next block), alone and after a short first record
+    from props.framing import B
+    ends = [k * B + d for k in (1, 2, 3) for d in range(-5, 7)]
+    for e in (ends if tier == 'quick' else ends * 4):
+        a, b = pair(rng)
+        first = rng.choice([0, 0, 40, 300])
+        size = e - 4 - (first + 4 if first else 0)
+        if not 24 <= size <= 4028:
+            continue
+        msgs = ([iu.dict_text(iu.sized_message(rng, first))] if first else []) + [iu.dict_text(iu.sized_message(rng, size))]
+        cases.append({'kind': 'ipm', 'via': rng.choice(['func', 'cli']), 'a': a, 'b': b, 'fa': rng.random() < 0.5, 'fb': True, 'msgs': msgs})
     for i in range(n):
         a, b = pair(rng)
         fa, fb = rng.random() < 0.5, rng.random() < 0.5
